@@ -288,22 +288,27 @@ async fn receive_task<T>(
         let item = match &mut state {
             ReceiveTaskState::InUse(notifier) => {
                 tokio::select! {
-                    item = framed.next() => {
-                        item
-                    }
+                    // The bookkeeping must be polled first. If the last handle was dropped and a
+                    // message is ready at the same time, the transport has to be marked unused
+                    // before `set_used` revives it for the message.
+                    biased;
+
                     _ = notifier => {
                         log::debug!("all refs to transport dropped, destroying soon if not used");
                         let rx = endpoint.transports().set_unused(&tp_key);
                         state = ReceiveTaskState::Unused(Box::pin(sleep(Duration::from_secs(32))), rx);
                         continue;
                     }
+                    item = framed.next() => {
+                        item
+                    }
                 }
             }
             ReceiveTaskState::Unused(timeout, rx) => {
                 tokio::select! {
-                    item = framed.next() => {
-                        item
-                    }
+                    // See above: handle a re-use of the transport before any message
+                    biased;
+
                     notifier = rx => {
                         if let Ok(notifier) = notifier {
                             state = ReceiveTaskState::InUse(notifier);
@@ -313,6 +318,9 @@ async fn receive_task<T>(
                             log::error!("failed to receive notifier");
                             return;
                         }
+                    }
+                    item = framed.next() => {
+                        item
                     }
                     _ = timeout => {
                         log::debug!("dropping transport, not used anymore");
